@@ -30,7 +30,7 @@ from sim.ref import chp, sv
 from sim.seam import OutcomeScript, OwnedRNG
 
 ID = "C13"
-RUNS = {"quick": 500, "thorough": 15000}
+RUNS = {"quick": 800, "thorough": 30000}
 BUDGET = {"quick": 80, "thorough": 1500}
 CHUNK = {"quick": 4, "thorough": 20}
 RUN_TIMEOUT_S = 600
@@ -67,13 +67,15 @@ def gen_case(run_seed, tier):
     ne = sz.randint(1, 2)
     progs = []
     for _ in range(sz.randint(1, 2)):
-        progs.append(gen_program(wl, ne, np_, 1, sz.randint(2, 12), allow_ins=False, kinds_w=[40, 20, 25, 10, 5]))
+        progs.append(gen_program(wl, ne, np_, 1, sz.randint(2, 12), allow_ins=False, kinds_w=[40, 20, 25, 10, 5], hbias=0.35))
     tg, fam = graphs.random_graph(sz, np_, np_, connected=False, allow_isolated=False) if np_ >= 2 else ((1, []), "single")
     if np_ >= 2 and graphs.isolated(tg):
         tg = graphs.path(np_)
     length = sz.randint(4, 14 if tier == "thorough" else 10)
     w = {k: 1.0 for k in KINDS}
     w["compile"] = 2.0
+    w["mc"] = 1.5
+    w["mc_empty"] = 1.5
     w["evo"] = 0.3
     w["hyb"] = 0.3
     w["alt"] = 0.3
@@ -179,11 +181,21 @@ def fp_circuit(circ):
         wires[f"{t}{r}"] = [[sp, noise_desc(c.dag.nodes[n]["op"].noise)] for n, sp in lst]
     parts["wires"] = core.canon(wires)
     parts["regs"] = (c.n_emitters, c.n_photons, c.n_classical)
+    carries_noise = '"NoNoise"' not in parts["wires"] or any(x not in ('NoNoise',) for x in _noise_names(parts["wires"]))
+    shared = None
     for (b, nz, d) in STATE_KEYS:
+        if b == "stab" and nz and carries_noise:
+            # mixed-stabilizer simulation of depolarizing noise branches exponentially; the density-matrix backend
+            # covers the noisy semantics, the stabilizer backend the noise-free ones
+            parts[("state", b, nz, d)] = ("skipped",)
+            continue
         comp = StabilizerCompiler() if b == "stab" else DensityMatrixCompiler()
         comp.measurement_determinism = d
         comp.noise_simulation = nz
-        cc = copy.deepcopy(circ)
+        if nz and carries_noise:
+            cc = copy.deepcopy(circ)  # noisy compiles rewrite op.noise temporarily: private copy each
+        else:
+            cc = c  # nothing to rewrite: the observer's own copy is shared by these compiles
         try:
             parts[("state", b, nz, d)] = reduce_state(comp.compile(cc))
         except core.HarnessError:
@@ -191,6 +203,12 @@ def fp_circuit(circ):
         except Exception as e:
             parts[("state", b, nz, d)] = ("EXC", type(e).__name__)
     return parts
+
+
+def _noise_names(wires_json):
+    import re
+
+    return set(re.findall(r'\["([A-Za-z]+)",\[', wires_json)) & {"NoNoise", "DepolarizingNoise", "PauliError", "PhotonLoss", "OneQubitGateReplacement", "TwoQubitControlledGateReplacement", "MixedUnitaryError", "CoherentUnitaryError", "LocalCliffordError"}
 
 
 def fp_target(t):
@@ -310,15 +328,23 @@ def run_case(case):
             ctx.probe("pool_construction_failed")
             return ctx.result(False, sample={"skipped": f"{type(e).__name__}: {e}"[:200]})
 
+        fp_cache = {"c": [], "t": []}  # fingerprints taken after the previous call = fingerprints before this one
+
         def snapshot():
-            return [fp_circuit(c["obj"]) for c in circuits], [fp_target(t["obj"]) for t in targets]
+            while len(fp_cache["c"]) < len(circuits):
+                fp_cache["c"].append(fp_circuit(circuits[len(fp_cache["c"])]["obj"]))
+            while len(fp_cache["t"]) < len(targets):
+                fp_cache["t"].append(fp_target(targets[len(fp_cache["t"])]["obj"]))
+            return list(fp_cache["c"]), list(fp_cache["t"])
 
         def check_unchanged(step, what, before, exempt_circuit=None, sig=None):
             bc, bt = before
             for i, c in enumerate(circuits[: len(bc)]):
+                now_c = fp_circuit(c["obj"])
+                fp_cache["c"][i] = now_c
                 if i == exempt_circuit:
                     continue
-                d = diff_fp(bc[i], fp_circuit(c["obj"]))
+                d = diff_fp(bc[i], now_c)
                 if d:
                     role = "input" if i in used_c else "bystander"
                     ctx.violate("M_circuit_mutated", step, f"{what}: circuit #{i} ({c['origin']}, {role}) changed in {[str(x) for x in d][:4]}",
@@ -326,6 +352,7 @@ def run_case(case):
                     return False
             for i, t in enumerate(targets[: len(bt)]):
                 now = fp_target(t["obj"])
+                fp_cache["t"][i] = now
                 if now["rep"] != bt[i]["rep"]:
                     ctx.probe("target_representation_converted_in_place")
                 if not same_component(bt[i]["state"], now["state"]):
@@ -338,6 +365,12 @@ def run_case(case):
         for step, st in enumerate(case["history"]):
             if not ok:
                 break
+            if len(circuits) > 6:
+                # keep the pool small (every object is fingerprinted after every call): drop the oldest derived object
+                drop = next((i for i, c in enumerate(circuits) if c["origin"] != "program"), None)
+                if drop is not None:
+                    circuits.pop(drop)
+                    fp_cache["c"].pop(drop)
             k, a = st[0], st[1:]
             ctx.steps += 1
             ci = a[0] % len(circuits)
@@ -415,15 +448,17 @@ def run_case(case):
                     comp = StabilizerCompiler()
                     comp.measurement_determinism = 1
                     mc = MonteCarloNoise(C["obj"], n_sample=1, mc_noise_model=McNoiseMap() if a[2] % 2 else None, compiler=comp, seed=a[3])
-                    c2 = mc.assign_noise()
-                    f2 = fp_circuit(c2)
                     keys = [kk for kk in before[0][ci] if isinstance(kk, tuple) and kk[0] == "state"]
                     if C["noisy"]:
                         keys = [kk for kk in keys if kk[2] is False]
-                    d = diff_fp(before[0][ci], f2, keys)
-                    if d:
-                        ctx.violate("P_empty_noise_changes_state", step, f"MonteCarloNoise with an empty noise map: the derived circuit of #{ci} compiles differently for {[str(x) for x in d][:4]}", {"call": "mc_empty"})
-                        ok = False
+                    for _ in range(4):  # several samples: with an empty map every sample must be the noise-free circuit
+                        c2 = mc.assign_noise()
+                        f2 = fp_circuit(c2)
+                        d = diff_fp(before[0][ci], f2, keys)
+                        if d:
+                            ctx.violate("P_empty_noise_changes_state", step, f"MonteCarloNoise with an empty noise map: the derived circuit of #{ci} compiles differently for {[str(x) for x in d][:4]}", {"call": "mc_empty"})
+                            ok = False
+                            break
                     circuits.append({"obj": c2, "origin": f"mc_empty({ci})", "uses": [], "noisy_derived": False, "noisy": False})
                 elif k in ("compile", "compile_init"):
                     backend = ["stab", "dm"][a[2] % 2]
